@@ -219,3 +219,61 @@ def mk_document_index(g):
     if not hasattr(d, 'fields'):
         d.tree, d.measure_start_tree_stages, d.page_bounding_boxes, d.header_stage = None, mst, {}, None
     return d
+
+
+from kernpy.core.importer import Importer
+
+
+def mk_tree_node(g, name, token, header=None, last_op=None, stage=None):
+    """a node of an imported tree with an arbitrary (symbolic) list of children"""
+    kids = g.mlist(name + '.children', lambda e: e.new(Node, {'id': e.int('id')}, None))
+    st = g.int(name + '.stage', 0) if stage is None else stage
+    sigs = mk_signature_nodes(g, {})
+    n = g.new(Node, {'id': g.int(name + '.id', 1), 'token': token, 'parent': None, 'children': kids, 'stage': st, 'header_node': header,
+                     'last_signature_nodes': sigs, 'last_spine_operator_node': last_op}, None)
+    if not hasattr(n, 'fields'):
+        n.id, n.token, n.parent, n.children, n.stage, n.header_node = 1, token, None, kids, st, header
+        n.last_signature_nodes, n.last_spine_operator_node = sigs, last_op
+    return n
+
+
+def mk_tree(g):
+    """a MultistageTree with an arbitrary number of stages, each an arbitrary list of nodes"""
+    stages = g.mlist('stages', lambda e: e.mlist('nodes', lambda e2: e2.new(Node, {'id': e2.int('id')}, None)))
+    root = g.new(Node, {'id': 0, 'token': None, 'parent': None, 'children': [], 'stage': 0, 'header_node': None,
+                        'last_signature_nodes': None, 'last_spine_operator_node': None}, None)
+    t = g.new(MultistageTree, {'root': root, 'stages': stages}, None)
+    if not hasattr(t, 'fields'):
+        t.root, t.stages = root, stages
+    return t
+
+
+def mk_importer(g):
+    imp = g.new(Importer, {'last_measure_number': None, 'last_bounding_box': None, 'errors': [], '_tree': None, '_document': g.new(Document, {}, None),
+                           '_importers': {}, '_header_row_number': None, '_row_number': 1, '_tree_stage': 0, '_next_stage_parents': None,
+                           '_prev_stage_parents': None, '_last_node_previous_to_header': None}, None)
+    return imp
+
+
+
+def mk_path_node(e):
+    """a node of the previous stage: token simple or spine operator, header node of its spine, last operator or none"""
+    hdr = e.new(Node, {'id': e.int('hdr.id', 1), 'token': None, 'children': [], 'header_node': None}, None)
+    return e.new(Node, {'id': e.int('id', 1), 'token': e.new(SimpleToken, {'encoding': e.str_sym('tok.encoding'), 'category': e.enum('tok.category', TokenCategory),
+                                                                           'hidden': False}, None),
+                        'parent': None, 'children': e.mlist('children', lambda e2: e2.new(Node, {'id': e2.int('id')}, None)),
+                        'stage': e.int('stage', 0), 'header_node': hdr, 'last_signature_nodes': e.new(SignatureNodes, {'nodes': {}}, None),
+                        'last_spine_operator_node': None}, None)
+
+
+def mk_full_importer(g):
+    """an Importer in the middle of run(): arbitrary tree, arbitrary parents of the previous and of the next stage"""
+    tree = mk_tree(g)
+    doc = g.new(Document, {'tree': tree, 'measure_start_tree_stages': [], 'page_bounding_boxes': {}, 'header_stage': None}, None)
+    prev = g.mlist('prev', mk_path_node)
+    nxt = g.mlist('next', mk_path_node)
+    last = mk_tree_node(g, 'pre', mk_simple_like(g, 'MetacommentToken', 'pretok'))
+    hrn = None if g.choice('header_row.none', [True, False]) else g.int('header_row', 1)
+    return g.new(Importer, {'last_measure_number': None, 'last_bounding_box': None, 'errors': [], '_tree': tree, '_document': doc,
+                            '_importers': {}, '_header_row_number': hrn, '_row_number': g.int('row_number', 1), '_tree_stage': g.int('tree_stage', 1),
+                            '_next_stage_parents': nxt, '_prev_stage_parents': prev, '_last_node_previous_to_header': last}, None)
